@@ -310,7 +310,7 @@ def worker(job):
 def main(chk, tier, seed):
     chk.rule = RULE
     chk.assumptions = ["only the structure matters: constraints are zero-valued function relations", "sizes up to 4000"]
-    n = 900 if tier == "quick" else 12000
+    n = 900 if tier == "quick" else 48000
     bigs = [120, 300, 600, 1000, 1500, 2400, 2400, 2400] if tier == "quick" else [120, 300, 450, 520, 600, 800, 1000, 1500, 2000, 3000, 4000, 2500, 700, 900]
     nbig = len(bigs) * (2 if tier == "quick" else 3)
     total = n + nbig
